@@ -5,7 +5,7 @@ oracles (codec other than UTF-8, str.lower / int() / idna on non-ASCII text,
 IPv6Address.compressed, urllib unquote), and evaluate the property predicate on
 the implementation's own answers.
 
-stdin: {"mode": "parse"|"components"|"join"|"sample"|"consts", ...}   stdout: one JSON line.
+stdin: {"mode": "parse"|"components"|"sample"|"consts", ...}   stdout: one JSON line.   (join mode: c11_impl.py)
 Text travels as fixed six-hex-digit code points (lone surrogates survive)."""
 import ipaddress
 import json
@@ -15,7 +15,6 @@ import urllib.parse
 import harness.compat  # noqa
 import wpull.url as U
 from wpull.url import URLInfo
-import wpull.scraper.util as SU
 
 NONE = 0x110001
 ERRM = 0x110002
@@ -375,30 +374,6 @@ def mode_components(req):
 
 
 # --------------------------------------------------------------------------
-# urljoin_safe / urljoin: only ValueError may escape the stdlib join (assumption sample)
-# --------------------------------------------------------------------------
-def mode_join(req):
-    bad = []
-    n_none = 0
-    for base, link in req['pairs']:
-        b, l = un6(base), un6(link)
-        try:
-            r = SU.urljoin_safe(b, l)
-            if r is None:
-                n_none += 1
-        except Exception as e:
-            bad.append({'base': base, 'link': link, 'exc': type(e).__name__, 'where': 'urljoin_safe'})
-        try:
-            U.urljoin.cache_clear()
-            U.urljoin(b, l)
-        except ValueError:
-            pass
-        except Exception as e:
-            bad.append({'base': base, 'link': link, 'exc': type(e).__name__, 'where': 'urljoin'})
-    return {'bad': bad, 'none': n_none}
-
-
-# --------------------------------------------------------------------------
 # finite facts about the interpreter the model hard-codes / the theorems assume
 # --------------------------------------------------------------------------
 def mode_sample(req):
@@ -528,7 +503,7 @@ def main():
     req = json.load(sys.stdin)
     sys.setrecursionlimit(3000)
     mode = req.get('mode', 'parse')
-    res = {'parse': mode_parse, 'components': mode_components, 'join': mode_join, 'sample': mode_sample,
+    res = {'parse': mode_parse, 'components': mode_components, 'sample': mode_sample,
            'consts': mode_consts}[mode](req)
     print(json.dumps(res))
 
